@@ -98,3 +98,27 @@ def _kf_crop_snap(case, bucket, message, details, config):
     if case.get('what') != 'path':
         return False
     return bool(case.get('kf04_witness')) or abs(case.get('T1', 0) - case.get('T0', 1)) < 1e-4
+
+
+def _arc_span_deg(spec):
+    from .ref import arc_ref
+    cf = arc_ref.endpoint_to_center(spec[1], spec[2][0], spec[2][1], spec[3], spec[4], spec[5], spec[6])
+    return abs(cf['delta_deg'])
+
+
+@matcher('arc_point_to_t_small_span')
+def _kf_point_to_t(case, bucket, message, details, config):
+    """C11/C12: Arc.point_to_t matches an acos-derived and an asin-derived parameter with np.isclose; for an unrotated
+    arc spanning only a few degrees the acos branch is ill-conditioned near 0/180 degrees (asin near +-90) and a point
+    that lies on the arc is rejected, so Arc.intersect(Arc/Line) loses the crossing -- in one operand order or in both."""
+    if not (bucket.startswith('C11/swap_asymmetry/A') or bucket.startswith('C11/swap_asymmetry/LA') or bucket.startswith('C12/a/lost/')):
+        return False
+    specs = [case.get('s1'), case.get('s2')]
+    if not all(specs):
+        return False
+    arcs = [s for s in specs if s[0] == 'A']
+    if not arcs or any(s[0] in 'QC' for s in specs):
+        return False          # only the algebraic unrotated Arc/Arc and Arc/Line branches use point_to_t
+    if any(s[3] % 360 != 0 for s in arcs):
+        return False
+    return any(_arc_span_deg(s) < 5.0 for s in arcs)
